@@ -1451,3 +1451,334 @@ var ruleParseVarargLast = &Rule{
 		return []Ob{{Key: "PARSE/vararg-last:parseParList", Site: c.Pos(f.Pos()), Verdict: OK, Note: "nothing is read after `...`"}}
 	},
 }
+
+// ---------------------------------------------------------------------------------------------
+// LOC/exp-loc-exhaustive: the location accessor knows every expression kind the parser produces
+
+var ruleLocExpLoc = &Rule{
+	Name:    "LOC/exp-loc-exhaustive",
+	NeedSSA: true,
+	Text:    "common.GetExpLoc — the accessor through which checks and queries obtain the source range of an expression — has a type-switch arm for every concrete expression type the parser converts to ast.Exp and that carries a Loc field (the kinds are collected from the parser's MakeInterface instructions): a kind without an arm has the zero location, and every caller that tests IsInitialLoc() silently drops it (`nil or true` was not reported because nil had no location)",
+	Run: func(c *Ctx) []Ob {
+		f := c.SSAFunc(commonPkg, "", "GetExpLoc")
+		if f == nil {
+			return []Ob{{Key: "LOC/exp-loc:slot", Verdict: UNDECIDED, Note: "slot unresolved: common.GetExpLoc"}}
+		}
+		kinds := parserNodeKinds(c, "Exp")
+		cases := typeSwitchCases(f)
+		var names []string
+		for k := range kinds {
+			names = append(names, k)
+		}
+		sort.Strings(names)
+		var obs []Ob
+		n := 0
+		for _, k := range names {
+			// only kinds that have a location to give
+			sp := c.SSA[astPkg]
+			if sp == nil || sp.Type(k) == nil {
+				continue
+			}
+			st, ok := sp.Type(k).Type().Underlying().(*types.Struct)
+			if !ok {
+				continue
+			}
+			hasLoc := false
+			for i := 0; i < st.NumFields(); i++ {
+				if st.Field(i).Name() == "Loc" && isLocationType(st.Field(i).Type()) {
+					hasLoc = true
+				}
+			}
+			if !hasLoc {
+				continue
+			}
+			n++
+			key := "LOC/exp-loc:GetExpLoc:" + k
+			if cases[k] {
+				obs = append(obs, Ob{Key: key, Site: c.Pos(f.Pos()), Verdict: OK})
+			} else if why, ok := reviewedNoExpLoc[k]; ok {
+				obs = append(obs, Ob{Key: key, Site: c.Pos(f.Pos()), Verdict: OK, Note: "reviewed: " + why})
+			} else {
+				obs = append(obs, Ob{Key: key, Site: c.Pos(f.Pos()), Verdict: VIOLATION,
+					Note: "GetExpLoc has no arm for *ast." + k + ", which the parser produces and which carries a Loc: such an expression has the zero location and callers that test IsInitialLoc() skip it"})
+			}
+		}
+		obs = append(obs, floor("LOC/exp-loc-exhaustive", "expression kinds with a location produced by the parser", n, 12))
+		return obs
+	},
+}
+
+// expression kinds that may keep the zero location in GetExpLoc (kind: reason)
+var reviewedNoExpLoc = map[string]string{
+	"BadExpr": "placeholder for an expression with a syntax error: the error was reported where it was found, and no check should fire on it",
+}
+
+// ---------------------------------------------------------------------------------------------
+// ALIAS/loop-shared-object: one record per iteration
+
+var ruleAliasLoopShared = &Rule{
+	Name:    "ALIAS/loop-shared-object",
+	NeedSSA: true,
+	Text:    "a heap-allocated record (&T{…}, new(T)) that a loop both changes (a store into one of its fields inside the loop) and hands on for keeping inside the loop (stored as a map value or slice element, or passed to a module function through which the argument reaches a struct field or a map — forward value-flow summary) is allocated inside that loop: allocated before it, every entry made by the loop points at one record, which ends up holding the last iteration's values (the sibling of CFG/G8, which says the same for maps)",
+	Run: func(c *Ctx) []Ob {
+		var obs []Ob
+		e := newFlowEngine(c)
+		n := 0
+		for _, f := range c.ModFns() {
+			loops := loopsOf(f)
+			if len(loops) == 0 {
+				continue
+			}
+			cnt := 0
+			for _, ab := range f.Blocks {
+				for _, ins := range ab.Instrs {
+					al, ok := ins.(*ssa.Alloc)
+					if !ok || !al.Heap || al.Referrers() == nil {
+						continue
+					}
+					if _, isStruct := al.Type().Underlying().(*types.Pointer).Elem().Underlying().(*types.Struct); !isStruct {
+						continue
+					}
+					for h, body := range loops {
+						if body[ab] {
+							continue
+						}
+						written, kept := false, ""
+						for _, r := range *al.Referrers() {
+							if r.Block() == nil || !body[r.Block()] {
+								continue
+							}
+							switch x := r.(type) {
+							case *ssa.FieldAddr:
+								if x.Referrers() != nil {
+									for _, rr := range *x.Referrers() {
+										st, ok := rr.(*ssa.Store)
+										if !ok || st.Addr != x || !body[st.Block()] {
+											continue
+										}
+										// an overwrite with this iteration's value — not the growth of an accumulator field
+										// (F = append(F, …), F = F + …), which is what a record shared by design looks like
+										grows := false
+										var fromOwn func(v ssa.Value, d int) bool
+										fromOwn = func(v ssa.Value, d int) bool {
+											if d > 4 {
+												return false
+											}
+											switch y := v.(type) {
+											case *ssa.UnOp:
+												if fa2, ok := y.X.(*ssa.FieldAddr); ok && fa2.X == x.X && fa2.Field == x.Field {
+													return true
+												}
+											case *ssa.Call:
+												if len(y.Call.Args) > 0 {
+													return fromOwn(y.Call.Args[0], d+1)
+												}
+											case *ssa.BinOp:
+												return fromOwn(y.X, d+1) || fromOwn(y.Y, d+1)
+											case *ssa.Slice:
+												return fromOwn(y.X, d+1)
+											}
+											return false
+										}
+										grows = fromOwn(st.Val, 0)
+										if !grows {
+											written = true
+										}
+									}
+								}
+							case *ssa.MapUpdate:
+								if x.Value == ssa.Value(al) {
+									kept = "stored as a map value"
+								}
+							case *ssa.Store:
+								if x.Val == ssa.Value(al) {
+									if _, local := addrRoot(x.Addr).(*ssa.Alloc); !local || true {
+										if _, isIdx := x.Addr.(*ssa.IndexAddr); isIdx {
+											kept = "stored as a slice element"
+										}
+									}
+								}
+							case ssa.CallInstruction:
+								g := x.Common().StaticCallee()
+								if g == nil || !c.IsModFn(g) || len(g.Blocks) == 0 {
+									continue
+								}
+								for i, a := range x.Common().Args {
+									if a == ssa.Value(al) && i < len(g.Params) {
+										if s := e.paramSummary(g, i); len(s.sinks) > 0 {
+											for k := range s.sinks {
+												kept = "handed to " + g.Name() + ", which keeps it in " + k
+											}
+										}
+									}
+								}
+							}
+						}
+						if !written {
+							continue
+						}
+						n++
+						cnt++
+						key := fmt.Sprintf("ALIAS/loop-shared:%s#%d", fnKey(f), cnt)
+						if kept == "" {
+							obs = append(obs, Ob{Key: key, Site: c.Pos(al.Pos()), Verdict: OK, Note: "changed in the loop, not kept by it"})
+						} else {
+							obs = append(obs, Ob{Key: key, Site: c.Pos(al.Pos()), Verdict: VIOLATION,
+								Note: fmt.Sprintf("the record allocated here, before the loop at %s, is changed in every iteration and %s in every iteration: all entries share one record", c.Pos(h.Instrs[0].Pos()), kept)})
+						}
+					}
+				}
+			}
+		}
+		c.Stats["records_changed_in_loops_allocated_outside"] = n
+		obs = append(obs, Ob{Key: "ALIAS/loop-shared:scan", Site: "luahelper-lsp", Verdict: OK, Note: fmt.Sprintf("%d records allocated outside a loop and changed inside it examined", n)})
+		return obs
+	},
+}
+
+// ---------------------------------------------------------------------------------------------
+// DOC/D10: the text an edit produces is never the nil slice
+
+var ruleDocD10 = &Rule{
+	Name:    "DOC/D10-edited-text-not-nil",
+	NeedSSA: true,
+	Text:    "nil content means `read the file from disk` to the analysis (check_first_hanlde: content == nil). In FileMapCache.ApplyContentChanges every value obtained from (*bytes.Buffer).Bytes() — nil for a buffer nothing was written to, i.e. for an edit that empties the document — is compared with nil before it can become the returned text (a nil test on that very value exists in the function): otherwise the emptied buffer is analysed with the saved file's text",
+	Run: func(c *Ctx) []Ob {
+		f := c.SSAFunc(lspcommonPkg, "FileMapCache", "ApplyContentChanges")
+		if f == nil {
+			return []Ob{{Key: "DOC/D10:slot", Verdict: UNDECIDED, Note: "slot unresolved: FileMapCache.ApplyContentChanges"}}
+		}
+		var obs []Ob
+		n := 0
+		for _, b := range f.Blocks {
+			for _, ins := range b.Instrs {
+				call, ok := ins.(*ssa.Call)
+				if !ok {
+					continue
+				}
+				g := call.Call.StaticCallee()
+				if g == nil || g.Name() != "Bytes" || g.Pkg == nil || g.Pkg.Pkg.Path() != "bytes" {
+					continue
+				}
+				n++
+				key := fmt.Sprintf("DOC/D10:ApplyContentChanges:Bytes#%d", n)
+				tested := false
+				if call.Referrers() != nil {
+					for _, r := range *call.Referrers() {
+						if bo, ok := r.(*ssa.BinOp); ok && (bo.Op == token.EQL || bo.Op == token.NEQ) && (isNilConst(bo.X) || isNilConst(bo.Y)) {
+							tested = true
+						}
+					}
+				}
+				if tested {
+					obs = append(obs, Ob{Key: key, Site: c.Pos(call.Pos()), Verdict: OK, Note: "the buffer's bytes are tested for nil before they become the text"})
+				} else {
+					obs = append(obs, Ob{Key: key, Site: c.Pos(call.Pos()), Verdict: VIOLATION,
+						Note: "the bytes of the buffer become the new text without a nil test: an edit that empties the document yields nil, which the analysis reads as `no content, use the file on disk`"})
+				}
+			}
+		}
+		if n == 0 {
+			obs = append(obs, Ob{Key: "DOC/D10:ApplyContentChanges", Site: c.Pos(f.Pos()), Verdict: OK, Note: "no bytes.Buffer result becomes the text"})
+		}
+		return obs
+	},
+}
+
+// ---------------------------------------------------------------------------------------------
+// WALK/child-list-exhaustive: a loop that walks a list of child expressions walks all of them
+
+var ruleWalkChildList = &Rule{
+	Name:    "WALK/child-list-exhaustive",
+	NeedSSA: true,
+	Text:    "in package analysis, a loop over a slice field of a syntax node ([]ast.Exp of a statement or expression) whose body hands the current element to the expression walker (Analysis.cgExp with the element as its first argument) is left only when the list is exhausted: every expression of a list is evaluated by Lua, so a `break` / early return in such a loop leaves reads unseen — a local read only there is reported as unused, an unbound name there is never reported",
+	Run: func(c *Ctx) []Ob {
+		var obs []Ob
+		n := 0
+		for _, f := range c.ModFns() {
+			if f.Pkg == nil || f.Pkg.Pkg.Path() != analysisPkg || f.Blocks == nil {
+				continue
+			}
+			loops := loopsOf(f)
+			cnt := 0
+			var hs []*ssa.BasicBlock
+			for h := range loops {
+				hs = append(hs, h)
+			}
+			sort.Slice(hs, func(i, j int) bool { return hs[i].Index < hs[j].Index })
+			for _, h := range hs {
+				body := loops[h]
+				// the element of a range over a slice loaded from a field of an *ast node, handed to cgExp
+				visits := false
+				var site token.Pos
+				for b := range body {
+					for _, ins := range b.Instrs {
+						call, ok := ins.(*ssa.Call)
+						if !ok {
+							continue
+						}
+						g := call.Call.StaticCallee()
+						if g == nil || g.Name() != "cgExp" || len(call.Call.Args) < 2 {
+							continue
+						}
+						ld, ok := call.Call.Args[1].(*ssa.UnOp)
+						if !ok || ld.Op != token.MUL {
+							continue
+						}
+						ia, ok := ld.X.(*ssa.IndexAddr)
+						if !ok || !body[ia.Block()] {
+							continue
+						}
+						sl, ok := ia.X.(*ssa.UnOp)
+						if !ok {
+							continue
+						}
+						fa, ok := sl.X.(*ssa.FieldAddr)
+						if !ok {
+							continue
+						}
+						if pp, _ := namedPkgName(fa.X.Type()); pp != astPkg {
+							continue
+						}
+						// the index is the loop's own counter
+						if _, isConst := ia.Index.(*ssa.Const); isConst {
+							continue
+						}
+						visits = true
+						site = call.Pos()
+					}
+				}
+				if !visits {
+					continue
+				}
+				// innermost only: skip if a nested loop inside also visits (the inner one is judged itself)
+				n++
+				cnt++
+				key := fmt.Sprintf("WALK/child-list:%s#%d", fnKey(f), cnt)
+				early := ""
+				for b := range body {
+					if b == h {
+						continue
+					}
+					for _, s := range b.Succs {
+						if !body[s] {
+							// an exit from the middle of the loop; a panic block is not an exit of interest
+							if _, isPanic := s.Instrs[len(s.Instrs)-1].(*ssa.Panic); isPanic {
+								continue
+							}
+							early = c.Pos(b.Instrs[len(b.Instrs)-1].Pos())
+						}
+					}
+				}
+				if early == "" {
+					obs = append(obs, Ob{Key: key, Site: c.Pos(site), Verdict: OK, Note: "left only when the list is exhausted"})
+				} else {
+					obs = append(obs, Ob{Key: key, Site: c.Pos(site), Verdict: VIOLATION,
+						Note: "the loop that walks this expression list can be left before the list is exhausted (" + early + "): the remaining expressions are never analysed"})
+				}
+			}
+		}
+		obs = append(obs, floor("WALK/child-list-exhaustive", "loops that walk a child expression list", n, 6))
+		return obs
+	},
+}
